@@ -226,11 +226,16 @@ Proof. intros A B D. unfold kv_ok. cbn [fst snd]. rewrite A, B, D. reflexivity. 
 
 Ltac hok := repeat first
   [ assumption
-  | apply hdrs_ok_hdel | apply hdrs_ok_hdel_all
-  | apply hdrs_ok_hset | apply hdrs_ok_hsetdefault
-  | match goal with |- hdrs_ok (if ?c then _ else _) = true => destruct c end
-  | match goal with |- hdrs_ok (match ?c with _ => _ end) = true => destruct c end
-  | apply kv_ok_const; [reflexivity | reflexivity | ] ].
+  | match goal with
+    | |- hdrs_ok (hdel _ _) = true => apply hdrs_ok_hdel
+    | |- hdrs_ok (hdel_all _ _) = true => apply hdrs_ok_hdel_all
+    | |- hdrs_ok (hsetdefault _ _ _) = true => apply hdrs_ok_hsetdefault
+    | |- hdrs_ok (hset _ _ _) = true => apply hdrs_ok_hset
+    | |- hdrs_ok (if ?c then _ else _) = true => destruct c
+    | |- hdrs_ok (match ?c with _ => _ end) = true => destruct c
+    | |- kv_ok (_, _) = true => apply kv_ok_const; [vm_compute; reflexivity | vm_compute; reflexivity | ]
+    | |- rd_no_crlf _ = true => vm_compute; reflexivity
+    end ].
 
 Lemma dec_print_no_crlf n : rd_no_crlf (dec_print n) = true.
 Proof. exact (proj1 (dec_print_clean n)). Qed.
@@ -485,7 +490,7 @@ Lemma r_prepare_framed v29 vc now r r' : resp_ok r = true -> rd_no_crlf now = tr
   hdrs_ok (r_hdrs r') = true /\ hdrs_ok (b_trailer (r_body r')) = true /\ src_ok (b_src (r_body r')) = true /\
   src_pieces (b_src (r_body r')) = (if no_body_status (r_code r) || bytes_eqb (r_rmethod r) M_HEAD then [] else src_pieces (b_src (r_body r))) /\
   exists fr, hframing (r_hdrs r') fr /\
-    (bodiless = false -> body_matches C vc false fr (r_body r') /\ (fr <> FChunked -> b_codec (r_body r') = None)) /\
+    (bodiless = false -> body_matches C vc false fr (r_body r') /\ (fr <> FChunked -> b_codec (r_body r') = None) /\ fr <> FNone) /\
     (bodiless = true -> (v29 = Repaired \/ fr <> FChunked) -> body_octets C vc (r_body r') = []).
 Proof.
   intros Hok Hnow. unfold resp_ok in Hok.
@@ -578,10 +583,10 @@ Proof.
       assert (Ehead : bytes_eqb rm M_HEAD = false) by (unfold r_bodiless in Hbl; apply orb_false_iff in Hbl as [X _]; exact X).
       assert (Ebf : bf = b9) by (unfold bf, r_step_head; rewrite Hbl, Ehead; destruct v29; reflexivity).
       rewrite Ebf, Hr. unfold body_matches. rewrite G1, Hch3. fold t. destruct t eqn:Et.
-      * split; [reflexivity|]. intros X. congruence.
+      * split; [reflexivity|]. split; [intros X; congruence | discriminate].
       * assert (Ec : b_codec b9 = None).
         { rewrite G2. destruct (b_codec b3) eqn:Ec; [|reflexivity]. assert (X : false = true) by (apply Hco3; discriminate). discriminate. }
-        split; [|intros _; exact Ec]. split; [reflexivity|]. unfold payload, coded. rewrite Ec. cbn [encode_pieces].
+        split; [|split; [intros _; exact Ec | discriminate]]. split; [reflexivity|]. unfold payload, coded. rewrite Ec. cbn [encode_pieces].
         unfold n, src_content. rewrite G5, Hsrc3. reflexivity.
     + (* no body may be sent *)
       intros Hbl Hv. unfold body_octets. rewrite body_iter_spec. cbn [fst].
@@ -667,7 +672,7 @@ Proof.
     { unfold payload, coded, r_sent_pieces. rewrite Hpi. reflexivity. }
     split; [rewrite R4, Epl; reflexivity|]. intros Eb. rewrite Eb in *. unfold body_matches in Hbm. rewrite <- Epl.
     destruct fr; [exact (proj2 Hbm) | exact (proj2 Hbm) | exact I].
-  - intros Hne Eb. exact (proj2 (Hb1 Eb) Hne).
+  - intros Hne Eb. exact (proj1 (proj2 (Hb1 Eb)) Hne).
 Qed.
 
 End Main.
